@@ -59,7 +59,7 @@ static cJSON *create_common_response(const struct peer *p, const cJSON *id)
 
 	case cJSON_Number:
 		root = add_subobject_to_object(p, root,
-		                               cJSON_CreateNumber(id->valueint), "id");
+		                               cJSON_CreateNumber(id->valuedouble), "id");
 		break;
 
 	default:
